@@ -187,6 +187,27 @@ pub fn mutate(format: usize, data: &[u8], rng: &mut Rng) -> Vec<u8> {
     let mut d = data.to_vec();
     let interesting: [u8; 10] = [0, 1, 2, 3, 7, 8, 0x7F, 0x80, 0xFE, 0xFF];
     let n_ops = 1 + rng.below(3);
+    if format == 1 && d.len() >= 8 && rng.chance(1, 5) {
+        // a chunk the loader does not implement whose size field has the top bit set (as a signed step: back onto
+        // its own header, or onto an earlier chunk), somewhere between the others
+        let mut offs = vec![8usize];
+        let mut p = 8usize;
+        while p + 8 <= d.len() {
+            let sz = u32::from_le_bytes([d[p + 4], d[p + 5], d[p + 6], d[p + 7]]) as usize;
+            p = p.saturating_add(8).saturating_add(sz);
+            if p <= d.len() {
+                offs.push(p);
+            }
+        }
+        let at = *rng.pick(&offs);
+        let size: u32 = *rng.pick(&[0xFFFF_FFF8u32, 0xFFFF_FFF8, 0x8000_0000, (at as u32 + 8).wrapping_neg().wrapping_add(8), 0xFFFF_FFF0]);
+        let mut c = rng.pick(&[*b"JOY\0", *b"ZXPR", *b"XUNK", *b"TAPE"]).to_vec();
+        c.extend_from_slice(&size.to_le_bytes());
+        let tail = d.split_off(at);
+        d.extend_from_slice(&c);
+        d.extend_from_slice(&tail);
+        return d;
+    }
     for _ in 0..n_ops {
         if d.is_empty() {
             d.push(rng.u8());
@@ -230,8 +251,14 @@ pub fn mutate(format: usize, data: &[u8], rng: &mut Rng) -> Vec<u8> {
                     match rng.below(7) {
                         0 => {
                             let sz = u32::from_le_bytes([d[o + 4], d[o + 5], d[o + 6], d[o + 7]]);
-                            let nv = *rng.pick(&[0u32, 1, 2, sz.wrapping_sub(1), sz.wrapping_add(1), 0x7FFF_FFFF, 0xFFFF_FFFF, 36, 3]);
+                            // (sizes with the top bit set: as a signed step they point backwards - onto this very
+                            // header for -8, onto an earlier chunk for the others)
+                            let nv = *rng.pick(&[0u32, 1, 2, sz.wrapping_sub(1), sz.wrapping_add(1), 0x7FFF_FFFF, 0xFFFF_FFFF, 36, 3, 0xFFFF_FFF8, 0xFFFF_FFF8, 0x8000_0000, (o as u32).wrapping_neg().wrapping_sub(8), 0xFFFF_FFF0]);
                             d[o + 4..o + 8].copy_from_slice(&nv.to_le_bytes());
+                            if nv >= 0x8000_0000 && rng.bool() {
+                                // ... on a chunk the loader does not implement
+                                d[o..o + 4].copy_from_slice(*rng.pick(&[b"JOY\0", b"ZXPR", b"XUNK"]));
+                            }
                         }
                         1 => d[o + rng.below(4) as usize] = *rng.pick(&[0xFFu8, 0x80, 0xC3, b'z', 0]),
                         2 | 5 => {
@@ -465,7 +492,8 @@ impl C15 {
                                     let (bf, bl) = *hr.pick(&blocks);
                                     let fl = *hr.pick(&[0xFFu8, 0x00, bf, bf, bf]);
                                     let len = *hr.pick(&[1u16, 0x11, 0x90, 0x100, 0x1000, bl, bl / 2, bl.saturating_sub(1), (bl / 2).max(0x85)]);
-                                    bad |= call_ld_bytes(&mut e, fl, hr.chance(3, 4), 0x8000, len, 0xBFF0, 0xBF00, 2).is_err();
+                                    let ix = *hr.pick(&[0x8000u16, 0x8000, 0x8000, 0xFFF0, 0xFF80]);
+                                    bad |= call_ld_bytes(&mut e, fl, hr.chance(3, 4), ix, len, 0xBFF0, 0xBF00, 2).is_err();
                                 }
                                 2 => {
                                     e.play_tape();
